@@ -22,6 +22,14 @@ L12Q == {<<"nmt", 1>>, <<"nmt", 128>>, <<"tick">>, <<"trig", 1>>, <<"sync", 128>
          <<"cfg", "evt", TRUE, 1, 3>>, <<"cfg", "cid", TRUE, 1, <<133, 1, 0, 192>>>>, <<"cfg", "cid", TRUE, 1, <<133, 1, 0, 64>>>>}
 P12 == << <<"tick">>, <<"tick">>, <<"tick">>, <<"tick">>, <<"trig", 1>>, <<"wr", "a", <<33>>>>, <<"tick">>, <<"tick">>, <<"tick">>, <<"tick">>, <<"tick">>, <<"sync", 128>>, <<"sync", 128>>, <<"sync", 128>>,
           <<"nmt", 128>>, <<"nmt", 1>>, <<"tick">>, <<"tick">>, <<"tick">>, <<"tick">>, <<"tick">>, <<"wr", "a", <<34>>>> >>
+\* ---- C20 (PDO / SYNC part): SYNC producer on (2 ms), event TPDO with timers, synchronous RPDO; resets in every state
+TC20 == << TC(FALSE, 389, 254, 20, 3, 1, <<M("a", 8), Z4, Z4, Z4>>) >>
+RC20 == << RC(FALSE, 517, 1, 1, <<M("b", 8), Z4, Z4, Z4>>) >>
+S20 == <<128, TRUE, 2000>>
+L20P == {<<"nmt", 1>>, <<"nmt", 128>>, <<"nmt", 2>>, <<"tick">>, <<"trig", 1>>, <<"reset", 130>>, <<"reset", 129>>, <<"rpdo", 517, <<6, 0, 0, 0, 0, 0, 0, 0>>>>, <<"sync", 128>>,
+         <<"wr", "a", <<7>>>>, <<"cfg", "scyc", TRUE, 1, 3000>>, <<"cfg", "sid", TRUE, 1, <<128, 0, 0, 0>>>>, <<"cfg", "sid", TRUE, 1, <<128, 0, 0, 64>>>>}
+P20P == << <<"reset", 130>>, <<"pool">>, <<"rdcfg", "sid", TRUE, 1>>, <<"tick">>, <<"tick">>, <<"tick">>, <<"tick">>, <<"trig", 1>>, <<"sync", 128>>, <<"rpdo", 517, <<9, 0, 0, 0, 0, 0, 0, 0>>>>,
+           <<"nmt", 1>>, <<"trig", 1>>, <<"tick">>, <<"tick">>, <<"tick">>, <<"tick">>, <<"rpdo", 517, <<9, 0, 0, 0, 0, 0, 0, 0>>>>, <<"sync", 128>>, <<"reset", 129>>, <<"pool">>, <<"tick">>, <<"tick">> >>
 \* ---- C13: RPDO #1 asynchronous: a, dummy8, w; #2 synchronous (type 1): b, dummy16, l; #3 asynchronous: two 32-bit dummies
 RC13 == << RC(FALSE, 517, 254, 3, <<M("a", 8), Dm(5, 8), M("w", 16), Z4>>), RC(FALSE, 773, 1, 3, <<M("b", 8), Dm(6, 16), M("l", 32), Z4>>),
            RC(FALSE, 1029, 255, 2, <<Dm(7, 32), Dm(7, 32), Z4, Z4>>) >>
